@@ -38,12 +38,18 @@ def cases(draw):
     for i in range(nsrc):
         r = draw(fg.record_desc(names, nfilt, with_fluxes=wf, min_fits=1, min_data=draw(st.integers(1, min(5, nfilt))),
                                 name='s%02d' % i, allow_nan=False))
+        # models the fitter could not constrain carry chi^2 = NaN and are ranked last: the best chi^2 is still the first one
+        if len(r['chi2']) >= 2 and draw(st.integers(0, 3)) == 0:
+            imin = r['chi2'].index(min(r['chi2']))
+            others = [i for i in range(len(r['chi2'])) if i != imin]
+            for i in draw(st.lists(st.sampled_from(others), min_size=1, max_size=len(others), unique=True)):
+                r['chi2'][i] = float('nan')
         recs.append(r)
     crit = draw(st.sampled_from(['chi', 'cpd']))
     # attained statistic per source (best = smallest chi2, which sort() puts first)
     stats = []
     for r in recs:
-        best = min(r['chi2'])
+        best = min(v for v in r['chi2'] if v == v)
         nd = sum(1 for f in r['source']['flags'] if f in (1, 4))
         stats.append(best if crit == 'chi' else best / nd)
     finite = sorted(set(s for s in stats if s < 1e29))
@@ -75,6 +81,8 @@ def run_case(case, ctx):
     nfilt = case['nfilt']
     crit, thr = case['criterion'], case['threshold']
     labels = {'crit_' + crit, 'input_' + case['input'], 'auto_names' if case['auto'] else 'explicit_names'}
+    if any(v != v for r in case['records'] for v in r['chi2']):
+        labels.add('nan_chi2_ranked_last')
     if thr == 0.:
         return labels, False  # a zero threshold is indistinguishable from "not set" in the API
     with ctx.tempdir() as d:
@@ -84,7 +92,7 @@ def run_case(case, ctx):
         snaps = [fg.snapshot(i) for i in infos]
         expect_good = []
         for r in case['records']:
-            best = min(r['chi2'])
+            best = min(v for v in r['chi2'] if v == v)
             nd = sum(1 for f in r['source']['flags'] if f in (1, 4))
             stat = best if crit == 'chi' else best / nd
             expect_good.append(stat < thr)
